@@ -487,3 +487,89 @@ def obs_C09(g, out):
 
 
 P.OBS["C09"] = obs_C09
+
+
+# ---------------------------------------------------------------------------------------------
+# C10: poloidal order along every flux surface; nesting of the grid with all ny doubled
+def _tangent_fn(g):
+    from harness import oracles
+
+    an = oracles.analytic_psi_grad(g.cfg)
+    if an is not None:
+        grad = an[1]
+    else:
+        eq = g.eq
+
+        def grad(R, Z):
+            return -R * float(eq.Bp_Z(R, Z)), R * float(eq.Bp_R(R, Z))
+
+    def tang(R, Z):
+        gR, gZ = grad(R, Z)
+        n = np.hypot(gR, gZ)
+        return (gZ / n, -gR / n) if n > 1e-12 else (np.nan, np.nan)
+
+    return tang
+
+
+def _qsign(a, quantum):
+    """quantise keeping the sign of non-zero values (a positive step smaller than half a quantum stays positive)"""
+    a = np.asarray(a, dtype=float)
+    q = np.asarray(Q(a, quantum))
+    q = np.where((q == 0) & (a > 0), 1, np.where((q == 0) & (a < 0), -1, q))
+    return q.astype(np.int64).tolist()
+
+
+def obs_C10(g, out):
+    """steps lower face -> centre -> upper face of every cell (and corner -> xlow -> upper corner), projected on the tangent of the
+    flux surface given by the oracle at the middle of the step; the code's own poloidal_distance at the same places"""
+    t = g.extra["tables"]
+    NXf, NYf = t["meshnx"], t["meshny"]
+    tang = _tangent_fn(g)
+    st = {k: np.full((NXf, NYf), np.nan) for k in ("c1", "c2", "l1", "l2")}
+    for r in g.extra["regions"]:
+        i = r["id"]
+        x0, x1, y0, y1 = t["rects"][i]
+        Rc, Zc = g.reg["r%d_Rxy_centre" % i], g.reg["r%d_Zxy_centre" % i]
+        Ry, Zy = g.reg["r%d_Rxy_ylow" % i], g.reg["r%d_Zxy_ylow" % i]
+        Rx, Zx = g.reg["r%d_Rxy_xlow" % i], g.reg["r%d_Zxy_xlow" % i]
+        Rk, Zk = g.reg["r%d_Rxy_corners" % i], g.reg["r%d_Zxy_corners" % i]
+        for a in range(x1 - x0):
+            for b in range(y1 - y0):
+                for key, p, q in (("c1", (Ry[a, b], Zy[a, b]), (Rc[a, b], Zc[a, b])), ("c2", (Rc[a, b], Zc[a, b]), (Ry[a, b + 1], Zy[a, b + 1])),
+                                  ("l1", (Rk[a, b], Zk[a, b]), (Rx[a, b], Zx[a, b])), ("l2", (Rx[a, b], Zx[a, b]), (Rk[a, b + 1], Zk[a, b + 1]))):
+                    tr, tz = tang(0.5 * (p[0] + q[0]), 0.5 * (p[1] + q[1]))
+                    if not np.isfinite(tr):        # step straddles the X-point exactly (grad psi = 0 in the middle): use the chord itself
+                        st[key][x0 + a, y0 + b] = np.hypot(q[0] - p[0], q[1] - p[1])
+                    else:
+                        st[key][x0 + a, y0 + b] = (q[0] - p[0]) * tr + (q[1] - p[1]) * tz
+    # orientation of the y index relative to the oracle tangent: one sign for the whole grid
+    tot = sum(float(np.nansum(v)) for v in st.values())
+    s = 1.0 if tot >= 0 else -1.0
+    out["kind"] = "single"
+    out["orient"] = int(s)
+    out["step"] = {k: _qsign(s * v, 1e-9) for k, v in st.items()}
+    # the code's own poloidal distance: increments over the same steps (absolute values exceed the 32-bit range at this quantum)
+    pc, pl = g.var("poloidal_distance"), g.var("poloidal_distance_xlow")
+    out["pdstep"] = {"c1": _qsign(pc - g.var("poloidal_distance_ylow"), 1e-9), "c2": _qsign(upper_face(g, "poloidal_distance", "ylow") - pc, 1e-9),
+                     "l1": _qsign(pl - region_assemble(g, "poloidal_distance", "corners"), 1e-9), "l2": _qsign(upper_face(g, "poloidal_distance", "corners") - pl, 1e-9)}
+
+
+P.OBS["C10"] = obs_C10
+
+
+def obs_C10_pair(gA, gB, kind, out):
+    """A: coarse grid, B: the same configuration with all ny doubled"""
+    qpos = 1e-8
+    out["kind"] = kind
+    out["B"] = {k: gB.header()[k] for k in ("topo", "nx", "ny", "G", "NX", "NY", "conn")}
+    pos = {}
+    for tag, g in (("A", gA), ("B", gB)):
+        pos[tag] = {"Rc": Q(g.var("Rxy"), qpos), "Zc": Q(g.var("Zxy"), qpos),
+                    "Rlo": Q(g.var("Rxy_ylow"), qpos), "Zlo": Q(g.var("Zxy_ylow"), qpos),
+                    "Rhi": Q(upper_face(g, "Rxy", "ylow"), qpos), "Zhi": Q(upper_face(g, "Zxy", "ylow"), qpos),
+                    "Rk": Q(region_assemble(g, "Rxy", "corners"), qpos), "Zk": Q(region_assemble(g, "Zxy", "corners"), qpos),
+                    "Rkhi": Q(upper_face(g, "Rxy", "corners"), qpos), "Zkhi": Q(upper_face(g, "Zxy", "corners"), qpos)}
+    out["pos"] = pos
+
+
+P.OBS_PAIR["C10"] = obs_C10_pair
